@@ -24,7 +24,8 @@ namespace fcppt::tuple
 */
 template <
     typename... Tuples,
-    typename = std::enable_if_t<std::conjunction_v<fcppt::tuple::is_object<Tuples>...>>>
+    typename = std::enable_if_t<
+        std::conjunction_v<fcppt::tuple::is_object<std::remove_cvref_t<Tuples>>...>>>
 decltype(auto) concat(Tuples &&..._tuples)
 {
   return std::apply(
